@@ -546,6 +546,12 @@ def plan(tier):
                         if n == 3 and basis != "Z" and intended == 1:
                             continue
                         jobs.append((Reset(n=n, q=qpos, basis=basis, intended=intended, det=det), {}))
+    if q:
+        # budgeted look at n=3 (complete in the thorough tier)
+        for h in (MeasureZ(n=3, q=1, det="probabilistic"), Remove(n=3, q=2, det=1, via="remove_qubit"), Reset(n=3, q=0, basis="Z", intended=1, det=0)):
+            h.parallel = True
+            h.partial_ok = True
+            jobs.append((h, {"time_budget": 40, "chunk_paths": 4, "chunk_s": 8.0}))
     for n in ([2] if q else [2, 3]):
         for a, b in itertools.combinations(range(n), 2):
             jobs.append((Swap(n=n, pos=[a, b]), {}))
